@@ -28,7 +28,8 @@ RULE = ('unit: arrays with 2-8 leaves, 3-14 genes, 1-5 cells, 1-12 '
         'child maps with and without repeated types (sorted and unsorted '
         'names); factors 1, 0.5, 1/n, products landing on .5, tiny, random; '
         'n_assignments 1..children+2; malformed stream: factor > 1, '
-        'factor <= 0, n_assignments 0, no reference rows. pipeline: generated '
+        'factor <= 0, n_assignments 0, no reference rows, no marker genes. '
+        'pipeline: generated '
         'mapping problems (independent gene orders of query and reference, '
         'extra/missing genes, 1-3 levels, single-child chains) incl. exact '
         'centroid copies and duplicated centroids. non-trivial = >= 2 '
@@ -123,7 +124,7 @@ def gen_unit(rng, i):
 
 def gen_malformed(rng, i):
     case = gen_unit(rng, i + 1)
-    which = i % 5
+    which = i % 6
     if which == 0:
         case['factor'] = 1.0 + rng.uniform(0.3, 2.0)
         case['label'] = ['factor>1']
@@ -137,9 +138,14 @@ def gen_malformed(rng, i):
         case['refs'] = []
         case['types'] = []
         case['label'] = ['no-reference']
-    else:
+    elif which == 4:
         case['factor'] = 0.0
         case['label'] = ['factor=0']
+    else:
+        # no marker genes at all: every correlation is 0, leaf 0 wins
+        case['refs'] = [[] for _ in case['refs']]
+        case['query'] = [[] for _ in case['query']]
+        case['label'] = ['zero-genes']
     return case
 
 
